@@ -106,6 +106,9 @@ def c15_scenarios(tier, seed):
         out.append(scen(i + 1, num_workers=w, health_check=hc, hc_conns=(rnd.choice([1, 3, 8, 20]) if hc else None), batch_size=batches[(i // 2) % 4],
                         fault_percentage=faults[i % 3], status_interval=intervals[(i // 3) % 3], client_stats=(i % 4 in (1, 2)),
                         source=("env" if i % 3 == 1 else "file"), probe_socks=32, probe_rounds=2, observe_ms=100))
+    # many simultaneous health-check connections on few listeners (more than one wake-up's worth per worker)
+    out.append(scen(800, num_workers=1, health_check=True, hc_conns=48, probe_socks=8, probe_rounds=1))
+    out.append(scen(801, num_workers=2, health_check=True, hc_conns=90, probe_socks=8, probe_rounds=1))
     # default number of workers (one per CPU) with a health check, from the environment
     out.append(scen(900, health_check=True, hc_conns=4, source="env", probe_socks=32, probe_rounds=2))
     return [{k: v for k, v in s.items() if v is not None} for s in out]
@@ -129,10 +132,15 @@ def c19_scenarios(tier, seed):
         for d in delays:
             s = scen(i, num_workers=w, client_stats=cs, probe_socks=16, probe_rounds=1,
                      signal={"sig": sig, "mode": mode, "delay_ms": d + (150 if mode != "idle" else 0), "limit_ms": 5000, "senders": 3})
-            if mode == "load":
+            if mode in ("load", "load_quiet"):
                 s["load"] = {"clients": 8, "requests": 400}
             out.append(s)
             i += 1
+    # the statistics hand-off under load: short status interval (workers publish every status_interval/10), reporter on,
+    # signal while traffic is sustained
+    for k, (w, sig) in enumerate([(1, "TERM"), (2, "INT")] if tier == "quick" else [(1, "TERM"), (2, "INT"), (4, "TERM"), (1, "INT")]):
+        out.append(scen(500 + k, num_workers=w, client_stats=True, status_interval=1, probe_socks=8, probe_rounds=1, load={"clients": 6, "requests": 4000},
+                        signal={"sig": sig, "mode": "load_quiet", "delay_ms": 3500, "limit_ms": 5000}))
     return out
 
 
